@@ -54,7 +54,9 @@ Definition spec_triple (o : obs_triple) : bool :=
   let v := layout (t_m o) (t_r o) (t_l o) in
   N.eqb (t_enc o) v && triple_eqb (t_dec o) (canon (t_m o, t_r o, t_l o)) &&
   bn_eqb (t_wire o) (32%nat, v) && bn_eqb (t_prover o) (32%nat, v) &&
-  bn_eqb (t_commit o) (bn (le 32 v)).
+  bn_eqb (t_commit o) (bn (le 32 v)) &&
+  (* the hashed commitment of the global index commits to the same number (reference: Gallina Keccak over the LE image) *)
+  N.eqb (t_gihash o) (keccakN (le 32 v)).
 Definition spec_value (o : obs_value) : bool :=
   let v := v_v o in
   if canonicalb v then
